@@ -32,6 +32,7 @@ RULE = ("case = (learn in on/off/ips/None, eval in on/ips/None, record subset of
         "to satisfy the mode's requirements; non-trivial = at least 2 interactions and (mode pair other than (on,on) or extra "
         "fields or batching); distinct = distinct canonical JSON of the case")
 ASSUMPTIONS = [
+    "whether a learner understands batches is a property of each method: the doubles refuse or accept batches independently in predict, learn and score; a method that accepts them must receive one call per batched interaction with that interaction's lists, a method that refuses them one call per row",
     "logged propensities range from 1e-6 to 1 (log-uniform, plus a few round values); the IPS reward is exactly reward/probability however small the probability is - nothing in the docstring clips or floors it",
     "an evaluator object may be used for any number of evaluations (an Experiment shares one evaluator between all learner/environment pairs); what it requires of an environment is decided per evaluation, for the learner at hand",
     "a logged record whose 'probability' is None (LoggedInteraction's default for an unknown propensity) gets IPS weight 1 for that record only - coba divides by (probability or 1) per interaction in OpeRewards, DRReward and the VW label, and test_off_ips_actions_no_prob pins weight 1 for absent propensities; off-policy learn receives the None; a probability of 0 is not generated (nothing documents it)",
@@ -112,6 +113,10 @@ class Env:
         return rows
 
 # ----------------------------------------------------------------------------------------- the recording learner double
+def takes_batches(spec, method):
+    """whether the double's `method` understands batched arguments (per method; older cases carry one flag for all)"""
+    return spec.get("batch_ok_" + method, spec["batch_ok"]) if method != "predict" else spec["batch_ok"]
+
 class RecLearner:
     def __init__(self, spec):
         self.spec = spec
@@ -139,7 +144,7 @@ class RecLearner:
 
     def predict(self, context, actions):
         if is_batch(context) or is_batch(actions):
-            if not self.spec["batch_ok"]:
+            if not takes_batches(self.spec, "predict"):
                 raise NoBatch("this learner does not understand batches")
             rows, out = [], []
             n = len(actions) if is_batch(actions) else len(context)
@@ -156,7 +161,7 @@ class RecLearner:
 
     def learn(self, context, action, reward, probability, **kwargs):
         if is_batch(context) or is_batch(action) or is_batch(reward):
-            if not self.spec["batch_ok"]:
+            if not takes_batches(self.spec, "learn"):
                 raise NoBatch("this learner does not understand batches")
             n = len(reward)
             ctxs = list(context) if is_batch(context) else [context] * n
@@ -172,7 +177,7 @@ class RecScoreLearner(RecLearner):
             return 0.5   # SafeLearner.has_score probes with three Nones
         script = self.spec["script"]
         if is_batch(context) or is_batch(actions) or is_batch(action):
-            if not self.spec["batch_ok"]:
+            if not takes_batches(self.spec, "score"):
                 raise NoBatch("this learner does not understand batches")
             n = len(action)
             ctxs = list(context) if is_batch(context) else [context] * n
@@ -252,7 +257,11 @@ def check(case, events, out_rows):
     rows = env["rows"]
     b = env["batch"]
     groups = [rows[i:i + b] for i in range(0, len(rows), b)] if b else [[r] for r in rows]
-    batched_call = bool(b) and lrn["batch_ok"]
+    # SafeLearner finds out per method whether the learner understands batches: a method that does gets the whole batch in
+    # one call, a method that does not is called once per row
+    batched_call = bool(b) and takes_batches(lrn, "predict")
+    batched_learn = bool(b) and takes_batches(lrn, "learn")
+    batched_score = bool(b) and takes_batches(lrn, "score")
     has_prob = "probability" in have
     discrete = "actions" in have and len(rows[0]["actions"]) > 0 if rows else False
 
@@ -289,7 +298,7 @@ def check(case, events, out_rows):
             nxt = w.peek()
             if nxt is not None and nxt["k"] == "score":
                 require(lrn["score"], "score was called on a learner without score", **where)
-                scores = take_rows(w, "score", n, batched_call, where)
+                scores = take_rows(w, "score", n, batched_score, where)
                 for j, (r, sc) in enumerate(zip(group, scores)):
                     want_actions = r["actions"] if "actions" in have else None
                     want_ctx = r["ctx"] if "context" in have else None
@@ -300,7 +309,7 @@ def check(case, events, out_rows):
                 require(preds is not None, "eval='ips' produced neither a prediction nor a score call", **where)
                 eval_rewards = [ips(r, has_prob, pr[2][0]) for r, pr in zip(group, preds)]
         if learn:
-            got = take_rows(w, "learn", n, batched_call, where)
+            got = take_rows(w, "learn", n, batched_learn, where)
             for j, (r, lr) in enumerate(zip(group, got)):
                 want_ctx = r["ctx"] if "context" in have else None
                 if learn == "off":
@@ -494,6 +503,10 @@ def pairs(draw, tier, learn, eval_, score_style_logs):
     same_actions = coin()
     kwkeys = pick([["k"], ["k", "m"], []])
     learner = {"fmt": pick(["A", "AP", "AK", "APK"]), "score": coin(), "batch_ok": coin()}
+    # batch capability per method: usually the same for all, sometimes predict / learn / score differ
+    mixed = draw(st.integers(0, 2)) == 0
+    learner["batch_ok_learn"] = coin() if mixed else learner["batch_ok"]
+    learner["batch_ok_score"] = coin() if mixed else learner["batch_ok"]
     nrows = pick([0, 1, 2, 2, 3, 3, 4, 5, 6] + ([] if tier == "quick" else [8, 10, 14]))
     zs = draw(st.lists(st.integers(0, BIG - 1), min_size=nrows, max_size=nrows))
     pool = APOOL[atype]
@@ -540,7 +553,12 @@ def classes(case):
     strict, lenient = missing_fields(case) if env["rows"] else (set(), set())
     out = [f"learn={case['learn']}", f"eval={case['eval']}", f"fmt={case['learner']['fmt']}", f"rtype={env['rtype']}",
            "batched" if env["batch"] else "unbatched", "score" if case["learner"]["score"] else "no-score"]
-    if env["batch"]: out.append("batch-aware" if case["learner"]["batch_ok"] else "per-row-fallback")
+    if env["batch"]:
+        lr = case["learner"]
+        out.append("batch-aware" if lr["batch_ok"] else "per-row-fallback")
+        caps = (lr["batch_ok"], lr.get("batch_ok_learn", lr["batch_ok"]), lr.get("batch_ok_score", lr["batch_ok"]))
+        if case["learn"] and caps[0] != caps[1]: out.append("mixed:predict-" + ("yes" if caps[0] else "no") + "/learn-" + ("yes" if caps[1] else "no"))
+        if lr["score"] and case["eval"] == "ips" and caps[2] != caps[0]: out.append("mixed:score differs from predict")
     if not env["rows"]: out.append("empty-env")
     elif strict: out.append("must-reject")
     elif lenient: out.append("lenient-missing")
